@@ -142,6 +142,12 @@ func reslice(v reflect.Value, next func(n int) int, depth int) int {
 				n += reslice(v.Field(i), next, depth+1)
 			}
 		}
+	case reflect.String:
+		// the caller shortens a string it holds (s = s[:k]): same bytes, fewer of them
+		if v.Len() > 1 && v.CanSet() && next(3) == 0 {
+			v.SetString(v.String()[:next(v.Len())])
+			n++
+		}
 	case reflect.Slice:
 		if v.Len() > 0 && v.CanSet() {
 			keep := 0
